@@ -219,10 +219,12 @@ class Case:
         a, b = self.insts[dst], self.insts[src]
         if dst == src or type(a) is not type(b) or not hasattr(a, 'update_from_other_container'):
             return ['skip']
-        try:
-            a.update_from_other_container(b)
-        except ValueError:      # different handles
-            return ['skip']
+        hname = 'DescriptorHandle' if a.is_state_container else 'Handle'
+        if getattr(a, hname) != getattr(b, hname):        # the library refuses otherwise: align the handle first
+            names = [n for n, _ in X.class_props(type(a))]
+            setattr(a, hname, getattr(b, hname))
+            self.emit(['write', dst, [], names.index(hname), self.intern(getattr(b, hname))])
+        a.update_from_other_container(b)
         return ['update', dst, src]
 
     def slots(self, obj, path, out, depth=0):
@@ -271,10 +273,13 @@ class Case:
                 res = self.do_update(a % n, b % n)
             else:
                 res = self.do_write(a % n, b, c)
-            self.trace['ops'].append(res)
-            if res[0] != 'skip':
-                self.snapshot()
+            self.emit(res)
         return self.trace
+
+    def emit(self, res):
+        self.trace['ops'].append(res)
+        if res[0] != 'skip':
+            self.snapshot()
 
 
 if req.get('discover'):
